@@ -280,7 +280,8 @@ class Gen:
             op = {"op": "pfit", "d": d, "r": r, "c": [[float(rng.randint(0, 4)) for _ in range(w)] for _ in d]}
         elif cls == "few_rows":
             n = self.cfg["np"]["n"] - 1
-            op = {"op": "fit", "d": d[:n], "r": r[:n], "c": c[:n]}
+            # a first partial_fit is a fit: too few rows are rejected there as well
+            op = {"op": "fit" if self.fitted else rng.choice(["fit", "pfit"]), "d": d[:n], "r": r[:n], "c": c[:n]}
         elif cls == "not_fit":
             op = {"op": rng.choice(["pexp", "pred"]), "c": self.query_rows(1) if self.contextual else None}
         elif cls == "pred_ctx_missing":
